@@ -18,6 +18,7 @@ import (
 	"encoding/json"
 	"fmt"
 	"os"
+	"runtime/debug"
 	"runtime/pprof"
 	"sort"
 	"strconv"
@@ -407,6 +408,14 @@ func c19Judge(c *c19Case, e *c19Exp, o *c19Obs) (sig, why string) {
 	return "", ""
 }
 
+func c19Contents(msgs []c19Msg) []string {
+	var out []string
+	for j, x := range msgs {
+		out = append(out, c19Content(j, x))
+	}
+	return out
+}
+
 func c19Describe(c *c19Case, e *c19Exp, o *c19Obs) string {
 	var b strings.Builder
 	cj, _ := json.Marshal(c)
@@ -576,7 +585,13 @@ func c19CtxValues(cost []int, hi bool) []int {
 	return out
 }
 
-func c19RunConversation(env *c19Env, msgs []c19Msg, sub *evid.Run, agg *c19Agg, tag string, lv c19Level) {
+// c19Pick keeps, per work item, the most instructive case seen (for coverage.samples).
+type c19Pick struct {
+	score int
+	v     any
+}
+
+func c19RunConversation(env *c19Env, msgs []c19Msg, sub *evid.Run, agg *c19Agg, tag string, lv c19Level, pick *c19Pick) {
 	anyImg, maxImg := false, 0
 	for _, x := range msgs {
 		if x.Imgs > 0 {
@@ -613,10 +628,29 @@ func c19RunConversation(env *c19Env, msgs []c19Msg, sub *evid.Run, agg *c19Agg, 
 					sub.Add("distinct_nontrivial", 1)
 				}
 				sub.Distinct("outcome", fmt.Sprintf("%d/%d/%s/%d/%s/%s/%s", len(msgs), e.nExp, e.regime, len(o.images), tn, model, sig))
-				if sub.WantSample() {
-					sub.Sample(map[string]any{"case": c19Case{Msgs: append([]c19Msg{}, msgs...), Ctx: ctx, Tmpl: tn, Model: model}, "prompt": o.prompt, "images": len(o.images), "expected_run_start": e.nExp, "regime": e.regime})
-				} else {
-					sub.Sample(nil)
+				score := 1
+				if e.nExp > 0 {
+					score++
+				}
+				if e.nExp > 0 && e.nExp < len(msgs)-1 {
+					score++ // partial truncation
+				}
+				if len(o.images) > 0 {
+					score++
+				}
+				for j := 0; j < e.nExp; j++ {
+					if msgs[j].Role == "system" {
+						score++ // a system message kept from before the run
+						break
+					}
+				}
+				if tn != "legacy" {
+					score++
+				}
+				if score > pick.score {
+					pick.score = score
+					pick.v = map[string]any{"case": c19Case{Msgs: append([]c19Msg{}, msgs...), Ctx: ctx, Tmpl: tn, Model: model}, "contents": c19Contents(msgs),
+						"prompt": o.prompt, "images_returned": len(o.images), "expected_run_start": e.nExp, "regime": e.regime, "verdict": sig}
 				}
 				if sig != "" {
 					agg.add(sig, &c, func() string { return why + "\n" + c19Describe(&c, &e, &o) })
@@ -664,15 +698,36 @@ func ZZVerifC19() {
 		pprof.StartCPUProfile(f)
 		defer pprof.StopCPUProfile()
 	}
+	debug.SetGCPercent(1000) // live heap is tiny; the code under test allocates heavily
 	thorough := evid.Thorough()
-	levels := []c19Level{{1, "full"}, {2, "full"}, {3, "full"}, {4, "full"}, {5, "user-images"}, {6, "text"}}
-	if os.Getenv("C19_PROBE") != "" {
-		levels = []c19Level{{1, "full"}, {2, "full"}, {3, "full"}, {5, "text"}}
+	levels := []c19Level{
+		{M: 1, Alphabet: "full", CtxHi: true, Mllama: true},
+		{M: 2, Alphabet: "full", CtxHi: true, Mllama: true},
+		{M: 3, Alphabet: "full", CtxHi: true, Mllama: true},
+		{M: 4, Alphabet: "mid"},
+		{M: 5, Alphabet: "text"},
+		{M: 6, Alphabet: "text"},
 	}
 	if thorough {
-		levels = []c19Level{{1, "full"}, {2, "full"}, {3, "full"}, {4, "full"}, {5, "mid"}, {6, "user-images"}, {7, "text"}}
+		levels = []c19Level{
+			{M: 1, Alphabet: "full", CtxHi: true, Mllama: true},
+			{M: 2, Alphabet: "full", CtxHi: true, Mllama: true},
+			{M: 3, Alphabet: "full", CtxHi: true, Mllama: true},
+			{M: 4, Alphabet: "full", CtxHi: true, Mllama: true},
+			{M: 5, Alphabet: "mid", CtxHi: true},
+			{M: 6, Alphabet: "user-one-image"},
+			{M: 7, Alphabet: "text"},
+		}
 	}
-	r.Rule("every conversation of m messages over the level's per-message alphabet (role {user,assistant,system} x length {1,3} x images {0,1,2} x optional \"[img]\" placeholder; message j is the letter 'A'+j repeated) x every num_ctx in {cost(i)-1, cost(i), cost(i)+1 : i} >= 1 where cost(i) is the closed-form token count of retaining messages i.. x 3 template styles x model kinds {noproj; clip projector (768 tokens/image) and mllama-without-projector when the conversation has images; mllama only with <=1 image per message}. Each case is one call of the real chatPrompt with a tokenizer counting capital letters; cases are distinct by construction (mixed-radix counter over the alphabet, de-duplicated ctx list). Non-trivial = something must be dropped (expected run start > 0), or the latest message alone overflows, or a kept message carries an image; trivial = everything fits and no image is involved.")
+	if v := os.Getenv("C19_LEVELS"); v != "" { // development aid: JSON list of levels
+		levels = nil
+		if err := json.Unmarshal([]byte(v), &levels); err != nil {
+			fmt.Fprintln(os.Stderr, "C19_LEVELS:", err)
+			os.Exit(2)
+		}
+		r.NotExhaustive("C19_LEVELS override in effect: not the registered bounds")
+	}
+	r.Rule("every conversation of m messages over the level's per-message alphabet (role {user,assistant,system} x length {1,3} x images {0,1,2} x optional \"[img]\" placeholder; message j is the letter 'A'+j repeated) x every num_ctx >= 1 in {cost(i)-1, cost(i) : i} (which meets every equivalence class of num_ctx and both sides of every boundary; plus cost(i)+1 on the levels marked ctx_plus_one) where cost(i) is the closed-form token count of retaining messages i.. x 3 template styles x model kinds {noproj; clip projector (768 tokens/image) when the conversation has images; mllama-without-projector on the levels marked mllama, only with <=1 image per message}. Each case is one call of the real chatPrompt with a tokenizer counting capital letters; cases are distinct by construction (mixed-radix counter over the alphabet, de-duplicated ctx list). Non-trivial = something must be dropped (expected run start > 0), or the latest message alone overflows, or a kept message carries an image; trivial = everything fits and no image is involved.")
 	r.Assume(
 		"'fits' = tokens of (system messages before the run + the run) + image tokens of the run <= num_ctx; image tokens are those chatPrompt documents: 768 per image for a model with projector files, 0 without (the mllama+projector path, 1 token per image, needs real image decoding and is not enumerated)",
 		"token growth is monotone when the run is extended (true for the letter-counting tokenizer), so 'longest recent run that fits' and 'extend until the first step that does not fit' coincide",
@@ -688,30 +743,37 @@ func ZZVerifC19() {
 	for _, lv := range levels {
 		alpha := c19Alphabet(lv.Alphabet)
 		tag := fmt.Sprintf("m%d", lv.M)
-		// work items: the first min(2,m) messages
-		var items []string
-		for a0 := range alpha {
-			if lv.M == 1 {
-				items = append(items, fmt.Sprintf("%d -1", a0))
-				continue
+		// work items: the first min(3, m) messages, as indices into the alphabet
+		plen := min(3, lv.M)
+		items := []string{""}
+		for k := 0; k < plen; k++ {
+			var next []string
+			for _, it := range items {
+				for a := range alpha {
+					next = append(next, strings.TrimSpace(it+" "+strconv.Itoa(a)))
+				}
 			}
-			for a1 := range alpha {
-				items = append(items, fmt.Sprintf("%d %d", a0, a1))
-			}
+			items = next
 		}
+		var pmu sync.Mutex
+		picks := map[string]any{}
 		r.Parallel(0, items, func(item string, sub *evid.Run) {
 			env := c19NewEnv()
-			var a0, a1 int
-			fmt.Sscan(item, &a0, &a1)
+			pick := &c19Pick{}
+			defer func() {
+				pmu.Lock()
+				picks[item] = pick.v
+				pmu.Unlock()
+			}()
 			msgs := make([]c19Msg, 0, lv.M)
-			msgs = append(msgs, alpha[a0])
-			if a1 >= 0 {
-				msgs = append(msgs, alpha[a1])
+			for _, f := range strings.Fields(item) {
+				a, _ := strconv.Atoi(f)
+				msgs = append(msgs, alpha[a])
 			}
 			var rec func()
 			rec = func() {
 				if len(msgs) == lv.M {
-					c19RunConversation(env, msgs, sub, agg, tag)
+					c19RunConversation(env, msgs, sub, agg, tag, lv, pick)
 					return
 				}
 				for _, o := range alpha {
@@ -722,11 +784,18 @@ func ZZVerifC19() {
 			}
 			rec()
 		})
-		bounds = append(bounds, map[string]any{"messages": lv.M, "alphabet": lv.Alphabet, "options_per_message": len(alpha),
+		// two written-out cases per level: from the first and from the middle work item
+		smp := r.Sub()
+		smp.Sample(picks[items[0]])
+		if len(items) > 1 {
+			smp.Sample(picks[items[len(items)/2]])
+		}
+		r.Merge(smp)
+		bounds = append(bounds, map[string]any{"messages": lv.M, "alphabet": lv.Alphabet, "options_per_message": len(alpha), "ctx_plus_one": lv.CtxHi, "mllama": lv.Mllama,
 			"conversations": r.Count("conversations_" + tag), "evaluations": r.Count("evaluations_" + tag)})
 	}
 	r.Extra("bounds", map[string]any{"levels": bounds, "templates": c19TmplNames, "models": c19ModelNames, "lengths": []int{1, 3},
-		"ctx": "every closed-form boundary -1/0/+1, >= 1", "image_tokens": map[string]int{"clip": 768, "noproj": 0, "mllama-noproj": 0}})
+		"ctx": "every closed-form boundary cost(i)-1 and cost(i) (and cost(i)+1 where ctx_plus_one), >= 1", "image_tokens": map[string]int{"clip": 768, "noproj": 0, "mllama-noproj": 0}})
 
 	// report: one violation per signature with its smallest input, confirmed by re-execution
 	sigs := make([]string, 0, len(agg.m))
